@@ -7,6 +7,7 @@ package gtfix
 import (
 	"bytes"
 	"errors"
+	"fmt"
 )
 
 type Kind int
@@ -486,4 +487,34 @@ func BufJoin(s string, n int) string {
 		out.Write([]byte("-"))
 	}
 	return out.String() + "|"
+}
+
+// ShowWrap: fields of interface type and slices of them, read through String() and != nil; fmt.Sprintf with %s %d.
+type Named interface{ String() string }
+type Lit string
+
+func (l Lit) String() string { return string(l) }
+
+type Wrap struct {
+	Name string
+	A    Named
+	L    []Named
+	N    int
+}
+
+func ShowWrap(w *Wrap) string {
+	s := fmt.Sprintf("<%s:%d%%:%s>", w.Name, w.N, w.A)
+	if w.A != nil {
+		s += w.A.String()
+	}
+	for i, x := range w.L {
+		if i > 0 {
+			s += ","
+		}
+		s += x.String()
+	}
+	if len(w.L) == 0 {
+		s += "-"
+	}
+	return s
 }
